@@ -40,9 +40,10 @@ import uflgen
 import vlib
 
 HAND_FILES = ["Props/C10_model.v", "Props/C10_lemmas.v", "Props/C10_thm.v", "Props/C10_inj.v",
-              "Props/C10_expand.v", "Props/C10_refuted.v", "Props/C10_wf.v"]
+              "Props/C10_expand.v", "Props/C10_expandk.v", "Props/C10_refuted.v", "Props/C10_wf.v"]
 
-REQUIRE = "Require Import UFLV.Props.C10_model UFLV.Props.C10_expand UFLV.Props.C10_wf.\n"
+REQUIRE = ("Require Import UFLV.Props.C10_model UFLV.Props.C10_expand UFLV.Props.C10_expandk "
+           "UFLV.Props.C10_wf.\n")
 EXTRA_HEADER = r'''
 Definition oden s rho (o : option expr) c : KT := match o with Some e => DEN s rho e c | None => z0 end.
 (* UFL's Conditional constructor returns the branch when both branches are equal: the algebra law it uses *)
@@ -91,6 +92,7 @@ Ltac t3v := intros; repeat split; close2.
 TIERS = {"quick": dict(n=75, depth=3), "thorough": dict(n=600, depth=4)}
 MAIN_THEOREMS = ["C10_thm.den_ext_on", "C10_thm.C10_irep_den", "C10_thm.C10_remove_partial",
                  "C10_thm.C10_renumber", "C10_inj.C10_renumber_injective", "C10_expand.C10_expand_partial",
+                 "C10_expandk.C10_expandK_expand0", "C10_expandk.C10_expand_full",
                  "C10_refuted.C10_remove_refuted", "C10_refuted.C10_remove_zero_fixed",
                  "C10_refuted.C10_expand_refuted"]
 
@@ -203,6 +205,33 @@ def t3_lemma(case, model_term, fout, allow_none=False):
             f"| idtac \"T3V {nm}\"; {mid}; split; [vm_compute; discriminate|t3v]{last} ]. Qed.\n")
 
 
+VARIANT = {"expand_cache": "label"}     # which Gallina model of IndexExpander's variable cache applies
+
+
+def detect_variants(run):
+    """T1-style inspection of the source under test: does IndexExpander define its own `variable`
+    handler whose cache key contains the component and the index values (the repaired variant,
+    modelled by C10_expandk.expandK), or does it inherit Transformer.reuse_variable (cache keyed by
+    the label alone, modelled by C10_expand.expandS)?  A wrong selection breaks the T3 lemmas."""
+    import ast
+    import inspect
+    import importlib
+    mod = importlib.import_module("ufl.algorithms.expand_indices")
+    VARIANT["expand_cache"] = "label"
+    try:
+        tree = ast.parse(inspect.getsource(mod))
+        for node in ast.walk(tree):
+            if isinstance(node, ast.ClassDef) and node.name == "IndexExpander":
+                for fn in node.body:
+                    if isinstance(fn, ast.FunctionDef) and fn.name == "variable":
+                        src = ast.unparse(fn)
+                        if "component" in src and "_index2value" in src and "_variable_cache" in src:
+                            VARIANT["expand_cache"] = "context"
+    except (OSError, SyntaxError):
+        pass
+    run.extra["model_variants"] = dict(VARIANT)
+
+
 FIXED = set()     # known findings listed in known/C10.json that no longer reproduce (a fix was applied)
 
 
@@ -260,6 +289,16 @@ def extra_exp(known_instance, tensor_var=False):
     def f(case, ser):
         nm = case.name
         txt, names = [], []
+        if VARIANT["expand_cache"] == "context":
+            # repaired cache: the cached traversal computes the pure expansion (instance of
+            # C10_expandK_expand0), so C10_expand_full applies without any guard
+            txt.append(f"Example {nm}_ok : rk {nm}_in 0 = true /\\ expand_indices_k {nm}_in = expand0 [] [] {nm}_in. "
+                       f"Proof. split; vm_compute; reflexivity. Qed.\n")
+            names.append(f"{nm}_ok")
+            add_wf(case, txt, names)
+            txt.append(t3_lemma(case, f"expand_indices_k {nm}_in", ()))
+            names.append(f"{nm}_t3")
+            return "".join(txt), names
         if tensor_var and not known_instance:
             txt.append(f"Example {nm}_ok : rk {nm}_in 0 = true. Proof. vm_compute; reflexivity. Qed.\n")
             names.append(f"{nm}_ok")
@@ -493,6 +532,7 @@ def reclassify(run, failing, live):
 def main(run):
     known = vlib.load_known_findings("C10")
     live = replay_known(run, known)
+    detect_variants(run)
     FIXED.clear()
     FIXED.update(k for k in KNOWN if k not in live)     # listed as fixed, or no longer reproducing
     if FIXED:
